@@ -16,6 +16,8 @@ template <class T, glm::qualifier Q, int L> static void reg_geom() {
 		       return (d < 0 ? -d : d) / s; });
 	if constexpr (L >= 2) {
 		// the decision dot(Nref, I) == 0 exactly: Nref = (I.y, -I.x, 0, ...) makes the two products cancel without rounding
+		// dot(Nref, I) == -0 exactly (every product is -0: Nref = +0 vector, I all negative): "dot < 0" is false for -0, a sign-bit test is not
+		add_op(nmv<T, Q, L>("faceforward_dot_negzero"), spec("@F# @P#", tl, L), o, 'V', 'V', 0, FN { V n = LV::ld(in), i = -LV::ld(in + L); V r(T(0)); ST(out, glm::faceforward(n, i, r)); });
 		add_op(nmv<T, Q, L>("faceforward_dot0"), spec("@F# @F#", tl, L), o, 'V', 'V', 0, FN { V n = LV::ld(in), i = LV::ld(in + L); V r(T(0)); r[0] = i[1]; r[1] = -i[0]; ST(out, glm::faceforward(n, i, r)); });
 	}
 	add_op(nmv<T, Q, L>("reflect"), spec("@F# @U#", tl, L), o, 'U', 'U', 16, FN { ST(out, glm::reflect(LV::ld(in), LV::ld(in + L))); }, SC { return amax<T>(in, 0, L) * 4; });
